@@ -18,6 +18,10 @@ NAME_MAPS: Dict[str, List[str]] = {
     'adversarial': ['is_open', '_x', 'not_X', '_', '__x', 'e', 'X_if_Y', 'x_t', 'T', 'andy', 'or_', 'In', 'lambda1', 'e1', 'E', 'pass_'],
     'adversarial2': ['t', 'self_', 'Pin', 'or_1', '_x9_', 'lambda_', 'tt', 't1', 'self', 'np_', 'exp_', 'logX', 'maxi', 'Min', 'x', 'X'],
     'funcnames': ['exp', 'max', 'log', 'min', 'abs', 'np', 'sqrt', 'sum', 'print', 'float', 'int', 'len', 'all', 'any', 'round', 'pow'],
+    # names the model objects use themselves (they build and solve as variables)
+    # (lags, leads, check, endogenous, dtype, engine - like status and iterations - are reserved: the constructor itself adds them)
+    'attrnames': ['index', 'size', 'values', 'copy', 'span', 'names', 'eval', 'nbytes', 'strict', 'solve', 'solve_t', 'iter_periods', 'to_dataframe',
+                  'replace_values', 'add_variable', 'exec'],
     'vnames': [f'V{i}' for i in range(1, 61)],
     'long': ['Household_consumption_total_real', 'gross_domestic_product_2', 'k', 'V_1_2_3', 'Z' * 30, 'q_', 'a' * 40, 'b1_' * 10,
              'Cc', 'Dd', 'Ee', 'Ff', 'Gg', 'Hh', 'Ii', 'Jj'],
